@@ -1,0 +1,67 @@
+//go:build verif
+// +build verif
+
+package decoder
+
+import (
+	"fmt"
+	"reflect"
+	"sort"
+	"sync/atomic"
+	"unsafe"
+
+	"github.com/goccy/go-json/internal/runtime"
+	"github.com/goccy/go-json/internal/verifhook"
+)
+
+// State access for the external verification harness (build tag verif only).
+
+func init() {
+	verifhook.Resetters = append(verifhook.Resetters, verifReset)
+	verifhook.Dumpers = append(verifhook.Dumpers, verifDump)
+	verifhook.Describers = append(verifhook.Describers, verifDescribe)
+}
+
+func verifReset() {
+	initDecoder()
+	for i := range cachedDecoder {
+		cachedDecoder[i] = nil
+	}
+	atomic.StorePointer(&cachedDecoderMap, nil)
+}
+
+func verifDump() string {
+	initDecoder()
+	var slots []string
+	for i, d := range cachedDecoder {
+		if d != nil {
+			slots = append(slots, fmt.Sprintf("%d:%s", i, reflect.TypeOf(d).String()))
+		}
+	}
+	var keys []string
+	for k := range loadDecoderMap() {
+		keys = append(keys, (*runtime.Type)(unsafe.Pointer(k)).String())
+	}
+	sort.Strings(keys)
+	return fmt.Sprintf("dec.slice=%v dec.map=%v", slots, keys)
+}
+
+func verifDescribe(v interface{}) (string, bool) {
+	switch c := v.(type) {
+	case *RuntimeContext:
+		o := c.Option
+		return fmt.Sprintf("decctx{buf=%d opt{flags=%d ctx=%v path=%v}}", verifBucket(cap(c.Buf)), o.Flags, o.Context != nil, o.Path != nil), true
+	case *sliceHeader:
+		return fmt.Sprintf("slice{len=%d cap=%d}", c.len, verifBucket(c.cap)), true
+	}
+	return "", false
+}
+
+func verifBucket(n int) int {
+	b := 0
+	for n > 0 {
+		n >>= 1
+		b++
+	}
+	return b
+}
